@@ -38,22 +38,22 @@ Record obs := {
 Inductive tstep :=
 | TOp (o : op) (ob : option obs)
 (* one Commit/AsyncCommit/ReplicateTx call of a sequential client: OBegin then, if it passed, OLocked *)
-| TPre (c : N) (p : txspec) (exp : option txhdr) (skipic : bool) (stale : bytes) (ob : obs).
+| TPre (c : N) (p : txspec) (exp : option txhdr) (skipic : bool) (ob : obs).
 
 Inductive case := CScript (cf : cfg) (cmpvoff : bool) (steps : list tstep).
 
 Definition model_step (s : state) (t : tstep) : state * out :=
   match t with
   | TOp o _ => step Hs s o
-  | TPre c p exp sk stale _ =>
+  | TPre c p exp sk _ =>
       let '(s1, r) := begin Hs s c p exp sk in
-      match r with Ok _ => locked Hs s1 c stale | _ => (s1, r) end
+      match r with Ok _ => locked Hs s1 c | _ => (s1, r) end
   end.
 
 Definition tstep_obs (t : tstep) : option obs :=
-  match t with TOp _ ob => ob | TPre _ _ _ _ _ ob => Some ob end.
+  match t with TOp _ ob => ob | TPre _ _ _ _ ob => Some ob end.
 Definition is_pre (t : tstep) : bool :=
-  match t with TPre _ _ _ _ _ _ => true | TOp (OLocked _ _) _ => true | _ => false end.
+  match t with TPre _ _ _ _ _ => true | TOp (OLocked _) _ => true | _ => false end.
 
 Fixpoint list_eqb2 {A B} (eqb : A -> B -> bool) (a : list A) (b : list B) : bool :=
   match a, b with
